@@ -14,6 +14,11 @@ pub const PERF: &[(&str, usize)] = &[
     ("comment_dashes", 100000),
     ("alternating", 10000),
     ("foreign_nesting", 10000),
+    ("siblings_nth_of_type", 3000),
+    ("mutations_on_one_element", 4000),
+    ("text_small_tags", 4000),
+    ("script_less_than_signs", 100000),
+    ("cdata_brackets", 10000),
 ];
 
 pub fn run_perf(name: &str, n: usize) -> Result<(), String> {
@@ -53,6 +58,33 @@ pub fn run_perf(name: &str, n: usize) -> Result<(), String> {
         "foreign_nesting" => {
             cfg.docs.push(DocSpec { text: true, ..Default::default() });
             format!("{}x", "<svg><foreignObject>".repeat(n)).into_bytes()
+        }
+        "siblings_nth_of_type" => {
+            cfg.sels.push(SelSpec { sel: "p:nth-of-type(2n+1)".into(), el: true, ..Default::default() });
+            cfg.sels.push(SelSpec { sel: "div > q:nth-child(3n)".into(), el: true, ..Default::default() });
+            format!("<div>{}</div>", "<p></p><q></q>".repeat(n)).into_bytes()
+        }
+        "mutations_on_one_element" => {
+            let mut ops = vec![];
+            for _ in 0..n {
+                // before/append only: prepend()/after() insert at the front of the element's chunk
+                // list (Vec::insert(0)), so k such calls on ONE element move O(k^2) chunk headers -
+                // the number of handler calls is not input size, so that is not held against C15
+                for op in [Op::Before("b".into(), CT::Html), Op::Append("a".into(), CT::Html)] {
+                    ops.push(ScriptOp { kind: Kind::Element, nth: None, every_chunk: false, op });
+                }
+            }
+            cfg.sels.push(SelSpec { sel: "p".into(), ops, ..Default::default() });
+            b"<div><p>x</p></div>".to_vec()
+        }
+        "text_small_tags" => {
+            cfg.docs.push(DocSpec { text: true, ..Default::default() });
+            "<b>x</b>".repeat(n).into_bytes()
+        }
+        "script_less_than_signs" => format!("<script>{}</script>", "<".repeat(n)).into_bytes(),
+        "cdata_brackets" => {
+            cfg.docs.push(DocSpec { text: true, ..Default::default() });
+            format!("<svg><![CDATA[{}]]></svg>", "]".repeat(n)).into_bytes()
         }
         _ => return Err(format!("unknown perf family {name}")),
     };
